@@ -502,8 +502,8 @@ func TestC07(t *testing.T) {
 
 func runC07Proc(c *fw.Case) {
 	c.Probe("process-level-case (real desync binary)")
-	cmdKind := c.Draw(6, "proc.cmd")
-	names := []string{"extract", "extract --in-place", "chop", "cache", "make", "untar -i"}
+	cmdKind := c.Draw(7, "proc.cmd")
+	names := []string{"extract", "extract --in-place", "chop", "cache", "make", "untar -i", "tar -i"}
 	sig := []syscall.Signal{syscall.SIGINT, syscall.SIGTERM}[c.Draw(2, "proc.sig")]
 	n := []string{"1", "1", "3"}[c.Draw(3, "proc.n")]
 
@@ -517,10 +517,10 @@ func runC07Proc(c *fw.Case) {
 		wantTree map[string]*treeEntry
 	)
 	sz := sizes{256, 1024, 4096}
-	if cmdKind == 4 {
+	if cmdKind == 4 || cmdKind == 6 {
 		sz = sizes{1024, 4096, 16384} // the CLI takes chunk sizes in KiB
 	}
-	if cmdKind == 5 {
+	if cmdKind == 5 || cmdKind == 6 {
 		srcTree = filepath.Join(dir, "src")
 		if _, err := genTree(c, srcTree, 25); err != nil {
 			c.HarnessError("%v", err)
@@ -541,7 +541,7 @@ func runC07Proc(c *fw.Case) {
 		}
 	}
 	idx = mkIndex(blob, sz)
-	if cmdKind == 5 {
+	if cmdKind == 5 || cmdKind == 6 {
 		idx.Index.FeatureFlags |= desync.TarFeatureFlags
 	}
 	indexFile := filepath.Join(dir, "blob.caibx")
@@ -594,6 +594,11 @@ func runC07Proc(c *fw.Case) {
 			}
 			return []string{"make", "-n", n, "-m", "1:4:16", "-s", g.url(), indexFile, blobFile}
 		}
+	case 6:
+		holdKind = "PUT"
+		args = func(g *gateServer) []string {
+			return []string{"tar", "-i", "-n", n, "-m", "1:4:16", "-s", g.url(), indexFile, srcTree}
+		}
 	case 5:
 		holdKind = "GET"
 		args = func(g *gateServer) []string {
@@ -614,14 +619,14 @@ func runC07Proc(c *fw.Case) {
 			os.MkdirAll(out, 0755)
 		}
 		os.WriteFile(blobFile, blob, 0644)
-		if cmdKind == 4 {
+		if cmdKind == 4 || cmdKind == 6 {
 			os.Remove(indexFile)
 		} else {
 			writeIndex()
 		}
 	}
 	serve := func() *gateServer {
-		g, err := newGateServer(cmdKind == 2 || cmdKind == 4)
+		g, err := newGateServer(cmdKind == 2 || cmdKind == 4 || cmdKind == 6)
 		if err != nil {
 			c.HarnessError("%v", err)
 			return nil
@@ -640,14 +645,14 @@ func runC07Proc(c *fw.Case) {
 			if err != nil || !bytes.Equal(got, blob) {
 				return "the destination does not hold the blob"
 			}
-		case 2, 4:
+		case 2, 4, 6:
 			for _, ch := range idx.Chunks {
 				s := ch.ID.String()
 				if _, ok := g.stored["/"+s[:4]+"/"+s+".cacnk"]; !ok {
 					return "chunk " + s[:8] + " was not stored"
 				}
 			}
-			if cmdKind == 4 && !printStats {
+			if (cmdKind == 4 && !printStats) || cmdKind == 6 {
 				f, err := os.Open(indexFile)
 				if err != nil {
 					return "no index file was written"
